@@ -491,6 +491,21 @@ class Owner:
     pets: List[Pet] = field(default_factory=list)
     best: Optional[Cat] = None
 DiscAnn = Annotated[Union[A, Anon2], discriminator("type")] if False else None
+# annotated discriminated unions, both spellings: their members are always extracted (the discriminator mapping points at them)
+@dataclass
+class ACat:
+    x: int = 0
+@dataclass
+class ADog:
+    y: int = 0
+@dataclass
+class BCat:
+    x: int = 0
+@dataclass
+class BDog:
+    y: int = 0
+AnnUnion = Annotated[Union[ACat, ADog], discriminator("type", {"cat": ACat, "dog": ADog})]
+AnnUnion604 = Annotated[BCat | BDog, discriminator("type", {"cat": BCat, "dog": BDog})]
 @dataclass
 class RecProps:
     a: int = 0
@@ -643,6 +658,8 @@ EXPECT = {
     "RecBadAfter": (Union[str, RecBadAfter], set(), set()),
     "RecBadBefore": (Union[str, RecBadBefore], set(), set()),
     "HoldsRecBad": (HoldsRecBad, set(), {"HoldsRecBad"}),
+    "AnnUnion": (AnnUnion, {"ACat", "ADog"}, {"ACat", "ADog"}),
+    "AnnUnion604": (AnnUnion604, {"BCat", "BDog"}, {"BCat", "BDog"}),
     "Pet": (Pet, {"Pet", "Cat", "Dog"}, {"Pet", "Cat", "Dog"}),
     "Cat": (Cat, {"Pet"}, {"Pet", "Cat"}),
     "CatOrDog": (Union[Cat, Dog], {"Pet", "Cat", "Dog"}, {"Pet", "Cat", "Dog"}),
